@@ -103,3 +103,40 @@ func ZZ_C11_H1() {
 		zz.Assert("no-body", len(gotBody) == 0)
 	}
 }
+
+// ZZ_C11_BIG: a streamed request body spanning several 4 KiB copy buffers reaches the server
+// intact.
+func ZZ_C11_BIG() {
+	n := 8192 + zz.Range("extra", 1, 3)
+	known := zz.Choose("knownLength", 2) == 1
+	body := zzBigBody(n)
+	var r protocol.Request
+	r.SetMethod("POST")
+	r.SetRequestURI("http://h/up")
+	if known {
+		r.SetBodyStream(bytes.NewReader(body), len(body))
+	} else {
+		r.SetBodyStream(bytes.NewReader(body), -1)
+	}
+	out := zz.NewNetConn(nil)
+	wc := standard.ZZNewConn(out)
+	err := req.Write(&r, wc)
+	if err == nil {
+		err = wc.Flush()
+	}
+	zz.Assert("write-succeeds", err == nil)
+	if err != nil {
+		return
+	}
+	var got []byte
+	calls := 0
+	core := zzNewCore(func(c context.Context, ctx *app.RequestContext) {
+		calls++
+		got = append([]byte(nil), ctx.Request.Body()...)
+	})
+	s := zzNewServer(core)
+	_ = s.Serve(context.Background(), standard.ZZNewConn(zz.NewNetConn(out.Out)))
+	zz.Cover("reached-assert", true)
+	zz.Assert("handled", calls == 1)
+	zz.Assert("big-body-intact", bytes.Equal(got, body))
+}
